@@ -752,6 +752,17 @@ class Term(Container):
                                           "multiple fock matrix elements with "
                                           f"intersecting indices: {self}")
             sub.update(sub_obj)
+        # resolve chained substitutions: if i -> j and j -> k have been
+        # collected from two fock matrix elements, both have to end up on k
+        for old in sub:
+            new, seen = sub[old], {old}
+            while new in sub:
+                if new in seen:
+                    raise NotImplementedError("Cyclic index substitutions "
+                                              f"{sub} in {self}")
+                seen.add(new)
+                new = sub[new]
+            sub[old] = new
         # if term is part of a polynom -> return the sub dict and perform the
         # substitution in the polynoms parent term object.
         # provide the target indices to the returned expression, because
